@@ -150,26 +150,65 @@ func decoderHeadTable(e *Env) map[int]string {
 		return out
 	}
 	okOut := gate.Outcome{Kind: gate.ErrNil, Idx: 2}
+	// the read of the follow bytes: io.ReadFull(d.r, make([]byte, L))
+	var reads []*ssa.Call
+	for _, b := range fn.Blocks {
+		for _, in := range b.Instrs {
+			if c, ok := in.(*ssa.Call); ok && prov.CalleeName(&c.Call) == "io.ReadFull" && prov.Of(c.Call.Args[0]) == "param:d.r" {
+				reads = append(reads, c)
+			}
+		}
+	}
+	bufLen := func(c *ssa.Call) ssa.Value {
+		var v ssa.Value = c.Call.Args[1]
+		if sl, ok := v.(*ssa.Slice); ok {
+			v = sl.X
+		}
+		if ms, ok := v.(*ssa.MakeSlice); ok {
+			return ms.Len
+		}
+		return nil
+	}
 	for ai := 0; ai < 32; ai++ {
-		ctx := gate.New(e.P, e.P.VTA(), assumeVal(tAI, strconv.Itoa(ai)).assume...)
-		nf := ctx.PhiUnder(fn, "nfollow")
+		cfg := assumeVal(tAI, strconv.Itoa(ai))
+		ctx := gate.New(e.P, e.P.VTA(), cfg.assume...)
 		reach := ctx.SuccessReachable(fn, okOut)
+		live := map[*ssa.BasicBlock]bool{}
+		for _, b := range ctx.ReachableBlocks(fn) {
+			live[b] = true
+		}
+		// follow bytes read under this head: the evaluated buffer lengths of the reachable reads
+		var nf []string
+		for _, r := range reads {
+			if !live[r.Block()] {
+				continue
+			}
+			if l := bufLen(r); l != nil {
+				if v, ok := ctx.EvalValue(fn, l); ok {
+					nf = append(nf, v)
+					continue
+				}
+			}
+			nf = append(nf, "?")
+		}
 		key := fmt.Sprintf("decodeTypedUint:ai=%d", ai)
-		want := map[int]string{24: "const:1", 25: "const:2", 26: "const:4", 27: "const:8"}
+		want := map[int]string{24: "1", 25: "2", 26: "4", 27: "8"}
 		switch {
 		case ai < 24:
-			if reach && len(nf) == 1 && nf[0] == "const:0" {
+			if reach && len(nf) == 0 {
 				e.R.OK("TABLE", key, e.P.Pos(fn.Pos()), "direct value, no follow bytes")
 				out[ai] = "0"
 			} else {
-				e.R.Fail("TABLE", key, e.P.Pos(fn.Pos()), "additional information below 24 must decode directly with no follow bytes", fmt.Sprintf("nfollow=%v success reachable=%v", nf, reach))
+				e.R.Fail("TABLE", key, e.P.Pos(fn.Pos()), "additional information below 24 must decode directly with no follow bytes", fmt.Sprintf("follow reads=%v success reachable=%v", nf, reach))
 			}
 		case ai <= 27:
 			if reach && len(nf) == 1 && nf[0] == want[ai] {
 				e.R.OK("TABLE", key, e.P.Pos(fn.Pos()), "follow bytes "+want[ai])
-				out[ai] = strings.TrimPrefix(want[ai], "const:")
+				out[ai] = want[ai]
+				// ... and the read is on every successful path, its error honoured
+				e.requireGates("GATE", fn, okOut, cfg, gate.CallOK("D.follow", "io.ReadFull", "param:d.r", "make([]byte,*)"))
 			} else {
-				e.R.Fail("TABLE", key, e.P.Pos(fn.Pos()), "wrong number of follow bytes for this additional information", fmt.Sprintf("nfollow=%v want %s, success reachable=%v", nf, want[ai], reach))
+				e.R.Fail("TABLE", key, e.P.Pos(fn.Pos()), "wrong number of follow bytes for this additional information", fmt.Sprintf("follow reads=%v want %s, success reachable=%v", nf, want[ai], reach))
 			}
 		default:
 			if !reach {
@@ -183,16 +222,8 @@ func decoderHeadTable(e *Env) map[int]string {
 	// value assembly and exact reads
 	e.requireGates("GATE", fn, okOut, noCfg, gate.CallOK("D.first", "(*cbor.Decoder).ReadByte", "param:d"))
 	e.requireResult("RESULT", fn, okOut, 0, "(call:(*cbor.Decoder).ReadByte(param:d)#0 & const:224)", "major type = first byte & 0xe0")
-	e.requireResult("RESULT", fn, okOut, 1, "phi(conv("+tAI+")|phi(((↺ << const:8) | conv(make([]byte,phi(const:0|const:1|const:2|const:4|const:8))[*]))|const:0))",
+	e.requireResult("RESULT", fn, okOut, 1, "phi(conv("+tAI+")|phi(((↺ << const:8) | conv(make([]byte,*)[*]))|const:0))",
 		"the direct value, or the big-endian accumulation n = n<<8 | follow[i]")
-	nfOf := map[string]string{"24": "1", "25": "2", "26": "4", "27": "8"}
-	for _, v := range []string{"24", "25", "26", "27"} {
-		// the table obligation above established nfollow == nfOf[v] under ai == v
-		cfg := assumeVal(tAI, v)
-		cfg.assume = append(cfg.assume, gate.Assumption{ProvPat: "phi(const:0|const:1|const:2|const:4|const:8)", Value: nfOf[v]})
-		e.requireGates("GATE", fn, okOut, cfg,
-			gate.CallOK("D.follow", "io.ReadFull", "param:d.r", "make([]byte,phi(const:0|const:1|const:2|const:4|const:8))"))
-	}
 	return out
 }
 
